@@ -1364,7 +1364,7 @@ func addrEscapes(v ssa.Value, depth int) bool {
 						return true
 					}
 				case *ssa.Call:
-					if ci.Call.Value != in {
+					if ci.Call.Value != in && !passedToInlinedCaller(ci, in) {
 						return true
 					}
 				case *ssa.DebugRef:
@@ -1377,6 +1377,41 @@ func addrEscapes(v ssa.Value, depth int) bool {
 		}
 	}
 	return false
+}
+
+// inlinedFn is set by the loader: functions with an "inline" contract (executed by the engine
+// itself at every call site).
+var inlinedFn = func(fn *ssa.Function) bool { return false }
+
+// passedToInlinedCaller: the closure is an argument of a call to an inlined function whose
+// corresponding parameter is only ever called (a lock wrapper): the engine runs that code itself,
+// so the closure's captured cells are not exposed to unknown code.
+func passedToInlinedCaller(call *ssa.Call, cl ssa.Value) bool {
+	sc := call.Call.StaticCallee()
+	if sc == nil || !inlinedFn(sc) || len(sc.Params) != len(call.Call.Args) {
+		return false
+	}
+	for i, a := range call.Call.Args {
+		if a != cl {
+			continue
+		}
+		refs := sc.Params[i].Referrers()
+		if refs == nil {
+			return false
+		}
+		for _, r := range *refs {
+			switch r := r.(type) {
+			case *ssa.DebugRef:
+			case *ssa.Call:
+				if r.Call.Value != sc.Params[i] {
+					return false
+				}
+			default:
+				return false
+			}
+		}
+	}
+	return true
 }
 
 // freeVarReadOnly: the captured variable is only loaded from (possibly by nested closures).
